@@ -120,7 +120,7 @@ func runChild(c *Content) (string, string) {
 }
 
 // TestVerifC19Misc runs the three streams that need no in-package access in one binary
-// (case indices: key store 0.., trust store 100000.., request 200000..).
+// (case indices: key store 0.., trust store 100000.., request 200000.., remote 300000..).
 func TestVerifC19Misc(t *testing.T) {
 	w := vf.NewWriter()
 	defer w.Close()
@@ -128,7 +128,8 @@ func TestVerifC19Misc(t *testing.T) {
 	n := vf.N(460)
 	runKS(w, n*5/9)
 	runTS(w, n*3/9)
-	runReq(w, n/9)
+	runReq(w, n/18)
+	runRemote(w, n/18)
 }
 
 func runKS(w *vf.Writer, nrand int) {
